@@ -81,6 +81,8 @@ def gen_case(rng, k, maxn):
          "maxActive": rng.choice([0, 0, 1, 1, 2, 3, n + 1]),
          "handlers": [rng.choice([0, 1, 1, 2]) for _ in range(4)],
          "stopAfter": stop, "seed": rng.randrange(1 << 30), "dry": dry}
+    if n <= 8 and rng.random() < 0.2:
+        c["slowDone"] = rng.choice([25, 60])   # the done-channel listener is busy: every worker's report blocks that long
     return c
 
 
